@@ -358,6 +358,17 @@ pub fn span_code(span: &Span) -> u64 {
     ((span.start.line() as u64) << 20) | (span.start.col() as u64 + 1)
 }
 
+/// start of a span as serde-saphyr reports it for the in-memory input `text` (the crate's own conversion, which puts
+/// the scanner's end-of-stream mark back on the last line; conversion itself is C16's subject)
+pub fn span_code_in(span: &Span, text: &str) -> u64 {
+    loc_code(&serde_saphyr::verif_hooks::locs::location_from_span_in(span, Some(text)))
+}
+
+/// location of a scan error as serde-saphyr reports it for the in-memory input `text`
+pub fn scan_error_code_in(e: saphyr_parser::ScanError, text: &str) -> u64 {
+    serde_saphyr::verif_hooks::locs::from_scan_error_in(e, Some(text)).location().map(|l| loc_code(&l)).unwrap_or(0)
+}
+
 pub fn loc_code(l: &serde_saphyr::Location) -> u64 {
     (l.line() << 20) | l.column()
 }
@@ -394,8 +405,8 @@ pub fn raw_events(text: &str) -> (Vec<(Event<'static>, Span)>, Option<(String, u
         match item {
             Ok((ev, span)) => out.push((own(ev), span)),
             Err(e) => {
-                let m = e.marker();
-                return (out, Some((e.info().to_string(), ((m.line() as u64) << 20) | (m.col() as u64 + 1))));
+                let info = e.info().to_string();
+                return (out, Some((info, scan_error_code_in(e, text))));
             }
         }
     }
